@@ -49,6 +49,7 @@ type spec struct {
 	Locks  map[string][]string    // name -> package-level variables whose access sites and their protection are emitted
 	LockHelpers map[string]string // helper function -> lock it takes / releases
 	LockIgnore  []string          // exported entry points that goom's own packages never call
+	A64Table bool // emit the arm64 decode table
 	MethodCallers map[string][3]string // name -> (type's package suffix, type, method): functions of this package that call it
 }
 
@@ -88,6 +89,7 @@ var specs = []spec{
 	{Out: "LocksMemory", Arch: "amd64", Pkg: "./internal/bytecode/memory", Locks: map[string][]string{"memory_writes": {"call:mProtectCrossPage", "call:copy", "call:writeTo"}}},
 	{Out: "UnpatchCallersRoot", Arch: "amd64", Pkg: ".", MethodCallers: map[string][3]string{"root_guard_unpatch": {"internal/patch", "Guard", "Unpatch"}}},
 	{Out: "UnpatchCallersProxy", Arch: "amd64", Pkg: "./internal/proxy", MethodCallers: map[string][3]string{"proxy_guard_unpatch": {"internal/patch", "Guard", "Unpatch"}}},
+	{Out: "A64Table", Arch: "amd64", Pkg: "./internal/arch/arm64asm", A64Table: true},
 	{Out: "Page", Arch: "amd64", Pkg: "./internal/bytecode/memory", Funcs: []string{"PageStart"}, Loops: []string{"mProtectCrossPage"}, Shapes: []string{"WriteTo"}},
 }
 
@@ -144,7 +146,7 @@ func runSpec(repo, out string, sp spec) result {
 	if len(sp.Shapes) > 0 {
 		sb.WriteString("From Goom Require Import Model.WriteTo.\n")
 	}
-	if len(sp.Orders) > 0 || sp.Erro || len(sp.Pure) > 0 || len(sp.Lits) > 0 || len(sp.Locks) > 0 || len(sp.MethodCallers) > 0 {
+	if len(sp.Orders) > 0 || sp.Erro || len(sp.Pure) > 0 || len(sp.Lits) > 0 || len(sp.Locks) > 0 || len(sp.MethodCallers) > 0 || sp.A64Table {
 		sb.WriteString("From Coq Require Import String.\nOpen Scope string_scope.\n")
 	}
 	sb.WriteString("Open Scope Z_scope.\n\n")
@@ -291,6 +293,15 @@ func runSpec(repo, out string, sp spec) result {
 			}
 			sb.WriteString(s)
 			res.OK = append(res.OK, n)
+		}
+	}
+	if sp.A64Table {
+		s, err := trA64Table(pkg)
+		if err != nil {
+			res.Failed["instFormats"] = err.Error()
+		} else {
+			sb.WriteString(s)
+			res.OK = append(res.OK, "instFormats")
 		}
 	}
 	for _, fn := range sp.Loops {
